@@ -62,13 +62,14 @@ def regenerate_stages(fs="fs_main"):
 # ------------------------------------------------------------------------------------------------
 
 class Prog:
-    def __init__(self, name, plan, workers, lines, yseed=0, heap=64 << 20, tags=()):
+    def __init__(self, name, plan, workers, lines, yseed=0, heap=64 << 20, tags=(), watchdog=None):
         self.name, self.plan, self.workers, self.lines, self.yseed, self.heap = name, plan, workers, lines, yseed, heap
         self.tags = set(tags)
+        self.watchdog = watchdog          # seconds; None = $SCHED_WATCHDOG or 60
 
     def text(self):
         pre = [f"cfg plan {self.plan}", f"cfg heap {self.heap}", f"cfg workers {self.workers}",
-               f"cfg watchdog {os.environ.get('SCHED_WATCHDOG', '60')}",
+               f"cfg watchdog {os.environ.get('SCHED_WATCHDOG', str(self.watchdog or 60))}",
                "cfg events 1"]
         if self.yseed:
             pre.append(f"cfg yield {self.yseed}")
@@ -184,8 +185,9 @@ def forkgc_programs(rng, count, plans=None, prefix="g"):
                            fields=rng.choice([64, 400]), depth=rng.choice([50, 300]), end=end)
         ys = 0 if i % 3 == 2 else rng.randrange(1, 1 << 30)
         tags = {"forkgc"} | {f"forkgc-at:{STOP_POINTS[q]}" for q in points} | ({"shutdown"} if end else set())
+        # every op of these small programs takes milliseconds: a lost stop request shows after 25 s instead of 60 s
         progs.append(Prog(f"{prefix}{i}-{plan}-w{w}-pt{''.join(map(str, points))}{'-sd' if end else ''}", plan, w, body,
-                          yseed=ys, tags=tags))
+                          yseed=ys, tags=tags, watchdog=25))
     return progs
 
 
